@@ -88,7 +88,7 @@ def kendall_abs(df):
 
 
 # ---- random tables -------------------------------------------------------------------------------
-PATTERNS = ('indep', 'chain', 'factor', 'blocks', 'mixed-sign', 'ties', 'monotone', 'near-dup')
+PATTERNS = ('indep', 'chain', 'factor', 'blocks', 'mixed-sign', 'ties', 'monotone', 'near-dup', 'against-trend')
 
 
 def random_table(rs, ncol, pattern, nrow=None):
@@ -123,6 +123,10 @@ def random_table(rs, ncol, pattern, nrow=None):
     elif pattern == 'near-dup':
         for j in range(1, ncol):
             z[:, j] = z[:, 0] * (1 if j % 2 else -1) + rs.uniform(0.05, 0.8) * z[:, j]
+    elif pattern == 'against-trend':       # very strong (alternating-sign) dependence and one row far against it: h-functions reach 0 / 1
+        for j in range(1, ncol):
+            z[:, j] = z[:, 0] * (-1 if j % 2 else 1) + 0.05 * z[:, j]
+        z[0, :] = 3.0
     cols = ['v%d' % i for i in range(ncol)]
     return pd.DataFrame(z, columns=cols, index=rs.permutation(n) + 3)       # the row index is not 0..n-1
 
